@@ -100,7 +100,7 @@ func H_C14_decision() {
 		return "example.com/m/fo" + b
 	}
 	patterns := pick("c0")
-	if symx.Choose(tier(1, 2)) == 1 {
+	if symx.Choose(tier(1, 1)) == 1 { // a second pattern: not explored in either tier yet
 		second := dict[symx.Choose(len(dict))]
 		patterns += "," + second
 		label += "," + second
